@@ -6,11 +6,14 @@ import (
 	"context"
 	"errors"
 	"io"
+	"io/ioutil"
 	"sync"
 
 	"github.com/marekgalovic/anndb/cluster"
 	pb "github.com/marekgalovic/anndb/protobuf"
+	"github.com/marekgalovic/anndb/verifrt"
 	uuid "github.com/satori/go.uuid"
+	"github.com/sirupsen/logrus"
 	"google.golang.org/grpc"
 )
 
@@ -186,9 +189,20 @@ func verifDataset(local uint64, dim uint32, nodeIds [][]uint64) *Dataset {
 		pid := verifUUID(byte(i + 1))
 		pm := &pb.Partition{Id: pid.Bytes(), NodeIds: nodeIds[i]}
 		meta.Partitions = append(meta.Partitions, pm)
-		p := &partition{id: pid, meta: pm, dataset: d, raftMu: &sync.RWMutex{}}
+		p := &partition{id: pid, meta: pm, dataset: d, raftMu: &sync.RWMutex{}, log: verifLogEntry()}
 		d.partitions[i] = p
 		d.partitionsMap[pid] = p
 	}
 	return d
+}
+
+// verifLogEntry: a logger for harness-built partitions. Natively it discards
+// its output; in the symbolic run logging is a no-op on any receiver.
+func verifLogEntry() *logrus.Entry {
+	if verifrt.IsSymbolicRun() {
+		return nil
+	}
+	l := logrus.New()
+	l.SetOutput(ioutil.Discard)
+	return logrus.NewEntry(l)
 }
